@@ -225,6 +225,14 @@ func (c *Conn) connect(ctx context.Context) error {
 	go func() {
 		select {
 		case <-ctx.Done():
+			select {
+			case <-done:
+				// The dial completed before the context was cancelled (both were ready when this goroutine
+				// got to run): the connection belongs to the caller now.
+				debugf("dial completed - context cancellation no longer possible")
+				return
+			default:
+			}
 			debugf("context cancellation - sending disconnect frame...")
 			c.p.write(disconnectFrame(c.srcCall, c.dstCall, c.p.port))
 		case <-done:
